@@ -2,23 +2,26 @@
    Property theorems only.  Models: Model/Persist.v (persist.py value codec, from_dict, the
    effect of json.dumps/json.loads), Model/BallotFile.v (BLT writer/parser at token level),
    Model/StvFile.v (STV writer/parser at character level); proofs: Proofs/Persist_proofs.v,
+   Proofs/PersistRejects_proofs.v (the repaired serialize_value and the rejection clause),
    Proofs/BallotFile_proofs.v, Proofs/StvFile_proofs.v.
    The persist theorems hold for EVERY environment [E] (Unicode identifier tables, Decimal
    parser, class table, importable callables): these are oracle arguments, not assumptions. *)
 From Coq Require Import ZArith List Bool Lia Strings.String.
 From Coq Require Import QArith.
-From VL Require Import Model.Persist Proofs.Persist_proofs Model.BallotFile Proofs.BallotFile_proofs.
+From VL Require Import Model.Persist Proofs.Persist_proofs Proofs.PersistRejects_proofs Model.BallotFile Proofs.BallotFile_proofs.
 From VL Require Import Model.StvFile Proofs.StvFile_proofs.
 Import ListNotations.
 Open Scope string_scope.
 Open Scope Z_scope.
 
 (* ------------------------------------------------------------------ persist: value codec *)
+(* [serialize_value E] is the function after fixes/C19-persist-rejects.diff (names are resolved at save time, hence the
+   environment); [serialize_value_pinned] the one before. *)
 
 (* every representable value - any nesting depth - is saved without refusal and reloads to itself,
    directly and through JSON text *)
 Theorem C19_roundtrip : forall E v, representable E v = true ->
-  exists j, serialize_value v = SOk j /\ deserialize_value E j = DOk v /\
+  exists j, serialize_value E v = SOk j /\ deserialize_value E j = DOk v /\
             deserialize_value E (json_rt j) = DOk v.
 Proof. exact roundtrip_json. Qed.
 
@@ -28,46 +31,75 @@ Proof. exact roundtrip_json. Qed.
    is read from the source per class and proved in Props/GenTie_Signatures.v (C19_class_roundtrip,
    class_table_ok) - kept out of this file so that an unreadable source falls back to the tested premise *)
 Theorem C19_system_roundtrip : forall E c ps, representable E (PObj c ps) = true ->
-  exists j, serialize_value (PObj c ps) = SOk j /\
+  exists j, serialize_value E (PObj c ps) = SOk j /\
             from_dict E j = DOk (PObj c ps) /\ from_dict E (json_rt j) = DOk (PObj c ps).
 Proof. exact system_roundtrip. Qed.
 
-(* saving is refused exactly when an opaque value (no to_dict, not atomic, not iterable, not
-   callable) occurs somewhere inside *)
-Theorem C19_rejects_opaque : forall v, serialize_value v = SErr <-> has_opaque v = true.
-Proof. intros v. exact (ser_refuses_iff v true). Qed.
+(* THE REJECTION CLAUSE: a configuration that cannot be represented is rejected when saving.  [wf_value] holds of every
+   Python value (it says that the term encodes one: Fraction reduced, Decimal named by its canonical string, members of a
+   frozenset / keys of a dict hashable and pairwise different, no parameter called 'class'); it is not a restriction *)
+Theorem C19_rejects : forall E v, wf_value E v = true -> representable E v = false -> serialize_value E v = SErr.
+Proof. exact rejects. Qed.
+
+(* [representable] is exactly: a well-formed encoding that passes the tests of the repaired serialize_value *)
+Theorem C19_representable_split : forall E v, representable E v = wf_value E v && loadable E v.
+Proof. exact representable_split. Qed.
+
+(* saving is refused EXACTLY for the values that are not [loadable] (no hypothesis): a set, an opaque object, a str-keyed
+   dictionary carrying 'type' / 'class' / 'callable' with an identifier-shaped string, an object whose class is not found
+   under an identifier path, does not take the saved parameter names, or has a parameter 'type' with such a string, a
+   callable whose module.name is not an identifier path that resolves to it - anywhere inside the value *)
+Theorem C19_rejects_exactly : forall E v, serialize_value E v = SErr <-> loadable E v = false.
+Proof. intros E v. exact (ser_fixed_refuses_iff E v true). Qed.
+
+(* ... rather than silently altered: whatever IS saved reloads to itself, directly and through JSON text *)
+Theorem C19_saved_reloads : forall E v j, wf_value E v = true -> serialize_value E v = SOk j ->
+  deserialize_value E j = DOk v /\ deserialize_value E (json_rt j) = DOk v.
+Proof. exact saved_reloads. Qed.
+
+(* the repair changes no saved form: where the repaired function saves, the pinned one saved the same dictionary *)
+Theorem C19_fixed_agrees_with_pinned : forall E v j, serialize_value E v = SOk j -> serialize_value_pinned v = SOk j.
+Proof. exact fixed_agrees_with_pinned. Qed.
 
 (* the duplicate test used by [representable] really excludes structurally equal members *)
 Theorem C19_eqb_refl : forall v, pval_eqb v v = true.
 Proof. exact pval_eqb_refl. Qed.
 
-(* The property demands more: EVERY value that does not reload to itself is refused when saving. *)
-Definition C19_rejects_full_statement : Prop :=
-  forall E v, representable E v = false -> serialize_value v = SErr.
+(* ---- the pinned tree (before fixes/C19-persist-rejects.diff) *)
+(* saving was refused exactly when an opaque value (no to_dict, not atomic, not iterable, not callable) occurs inside *)
+Theorem C19_rejects_opaque_pinned : forall v, serialize_value_pinned v = SErr <-> has_opaque v = true.
+Proof. intros v. exact (ser_refuses_iff v true). Qed.
+
+(* the rejection clause for the pinned function *)
+Definition C19_rejects_pinned_full_statement : Prop :=
+  forall E v, wf_value E v = true -> representable E v = false -> serialize_value_pinned v = SErr.
 
 (* A small concrete environment for the closed-term witnesses. *)
 Definition s_max : str := Eval compute in codes "max".
+Definition s_hidden : str := Eval compute in codes "m.Hidden".
 Definition env0 : env :=
   {| xid_start := fun _ => false; xid_continue := fun _ => false; dec_canon := fun s => Some s;
-     class_exists := fun _ => true; class_accepts := fun _ _ => true;
+     class_exists := fun c => negb (str_eqb c s_hidden); class_accepts := fun _ _ => true;
      callable_resolves := fun s => str_eqb s s_max |}.
 
-(* refuted by the faithful model, four ways (each replayed on the implementation by the harness):
+(* refuted by the faithful model of the pinned tree, four ways (each replayed on the implementation by the corpus,
+   which now expects the refusal of the repaired code):
    1. a plain dictionary {'callable': 'max'} is saved as it is and comes back as the builtin max;
    2. a non-frozen set is saved as a list and comes back as a list;
    3. a lambda is saved under the name 'm.<lambda>' and comes back as a dictionary;
-   4. a closure is saved under a name that cannot be resolved: loading fails. *)
+   4. a closure is saved under a name that cannot be resolved: loading fails.
+   Each witness is a well-formed encoding and is refused by the repaired function. *)
 Theorem C19_rejects_reserved_key_refuted : exists v j v',
-  representable env0 v = false /\ serialize_value v = SOk j /\
-  deserialize_value env0 (json_rt j) = DOk v' /\ pval_eqb v v' = false.
+  wf_value env0 v = true /\ representable env0 v = false /\ serialize_value_pinned v = SOk j /\
+  deserialize_value env0 (json_rt j) = DOk v' /\ pval_eqb v v' = false /\ serialize_value env0 v = SErr.
 Proof.
   exists (PDict [(PStr s_callable, PStr s_max)]), (JDict [(s_callable, JStr s_max)]), (PCallable s_max).
   vm_compute. repeat split.
 Qed.
 
 Theorem C19_rejects_set_refuted : exists v j v',
-  representable env0 v = false /\ serialize_value v = SOk j /\
-  deserialize_value env0 (json_rt j) = DOk v' /\ pval_eqb v v' = false.
+  wf_value env0 v = true /\ representable env0 v = false /\ serialize_value_pinned v = SOk j /\
+  deserialize_value env0 (json_rt j) = DOk v' /\ pval_eqb v v' = false /\ serialize_value env0 v = SErr.
 Proof.
   exists (PSet [PInt 1; PInt 2]), (JList false [JInt 1; JInt 2]), (PList [PInt 1; PInt 2]).
   vm_compute. repeat split.
@@ -75,8 +107,8 @@ Qed.
 
 Definition s_lambda : str := Eval compute in codes "m.<lambda>".
 Theorem C19_rejects_lambda_refuted : exists v j v',
-  representable env0 v = false /\ serialize_value v = SOk j /\
-  deserialize_value env0 (json_rt j) = DOk v' /\ pval_eqb v v' = false.
+  wf_value env0 v = true /\ representable env0 v = false /\ serialize_value_pinned v = SOk j /\
+  deserialize_value env0 (json_rt j) = DOk v' /\ pval_eqb v v' = false /\ serialize_value env0 v = SErr.
 Proof.
   exists (PCallable s_lambda), (JDict [(s_callable, JStr s_lambda)]), (PDict [(PStr s_callable, PStr s_lambda)]).
   vm_compute. repeat split.
@@ -84,12 +116,27 @@ Qed.
 
 Definition s_closure : str := Eval compute in codes "votelib.evaluate.openlist._quota_fractional".
 Theorem C19_rejects_closure_refuted : exists v j,
-  representable env0 v = false /\ serialize_value v = SOk j /\
-  deserialize_value env0 (json_rt j) = DErr E_ATTR.
+  wf_value env0 v = true /\ representable env0 v = false /\ serialize_value_pinned v = SOk j /\
+  deserialize_value env0 (json_rt j) = DErr E_ATTR /\ serialize_value env0 v = SErr.
 Proof.
   exists (PCallable s_closure), (JDict [(s_callable, JStr s_closure)]).
   vm_compute. repeat split.
 Qed.
+
+(* 5. an object of a class that is not found under its name is saved and cannot be loaded *)
+Theorem C19_rejects_hidden_class_refuted : exists v j,
+  wf_value env0 v = true /\ representable env0 v = false /\ serialize_value_pinned v = SOk j /\
+  deserialize_value env0 (json_rt j) = DErr E_ATTR /\ serialize_value env0 v = SErr.
+Proof.
+  exists (PList [PObj s_hidden [([97], PInt 1)]]), (JList false [JDict [(s_class, JStr s_hidden); ([97], JInt 1)]]).
+  vm_compute. repeat split.
+Qed.
+
+(* [wf_value] cannot be dropped from C19_rejects - but only because the type pval has terms that encode no Python value:
+   Fraction(2, 4) IS Fraction(1, 2) *)
+Example C19_rejects_wf_needed : representable env0 (PFrac 2 4) = false /\ wf_value env0 (PFrac 2 4) = false /\
+  exists j, serialize_value env0 (PFrac 2 4) = SOk j.
+Proof. split; [reflexivity|]. split; [reflexivity|]. eexists. reflexivity. Qed.
 
 (* the hypotheses are satisfiable by a non-trivial value: a system with a Fraction, a Decimal, a
    tuple-keyed dictionary, a frozenset, a nested object, a str-keyed dictionary carrying the word
@@ -107,6 +154,13 @@ Definition example_value : pval :=
                   PDict [(PStr s_type, PStr s_noid); (PStr s_b, PTuple [])]])].
 Example C19_example_representable : representable env0 example_value = true.
 Proof. vm_compute. reflexivity. Qed.
+(* ... and the hypotheses of C19_rejects by a nested value that is well-formed and not representable (a reserved key three
+   levels down): it is refused *)
+Definition example_rejected : pval :=
+  PObj s_cls [(s_a, PList [PFrac (-3) 4; PDict [(PTuple [PInt 1], PDict [(PStr s_class, PStr s_cls); (PStr s_b, PInt 2)])]])].
+Example C19_example_rejected : wf_value env0 example_rejected = true /\ representable env0 example_rejected = false /\
+  serialize_value env0 example_rejected = SErr /\ exists j, serialize_value_pinned example_rejected = SOk j.
+Proof. vm_compute. repeat split. eexists. reflexivity. Qed.
 
 (* ------------------------------------------------------------------ BLT files (token level) *)
 
@@ -328,12 +382,18 @@ Proof. split; vm_compute; reflexivity. Qed.
 
 Print Assumptions C19_roundtrip.
 Print Assumptions C19_system_roundtrip.
-Print Assumptions C19_rejects_opaque.
+Print Assumptions C19_rejects.
+Print Assumptions C19_representable_split.
+Print Assumptions C19_rejects_exactly.
+Print Assumptions C19_saved_reloads.
+Print Assumptions C19_fixed_agrees_with_pinned.
 Print Assumptions C19_eqb_refl.
+Print Assumptions C19_rejects_opaque_pinned.
 Print Assumptions C19_rejects_reserved_key_refuted.
 Print Assumptions C19_rejects_set_refuted.
 Print Assumptions C19_rejects_lambda_refuted.
 Print Assumptions C19_rejects_closure_refuted.
+Print Assumptions C19_rejects_hidden_class_refuted.
 Print Assumptions C19_blt_roundtrip.
 Print Assumptions C19_blt_parse_total.
 Print Assumptions C19_blt_roundtrip_pinned_refuted.
